@@ -104,6 +104,10 @@ var c07IdOps = []c07IdOp{
 	{"id/avatar-not-url", true, false, idField("avatar_url", `"not a url"`)},
 	{"id/nonce-too-short", true, false, idField("nonce", b64(4))},
 	{"id/nonce-too-long", true, false, idField("nonce", b64(80))},
+	{"id/nonce-19-bytes", true, false, idField("nonce", b64(19))},
+	{"id/nonce-65-bytes", true, false, idField("nonce", b64(65))},
+	{"id/nonce-20-bytes-legal", false, false, idField("nonce", b64(20))},
+	{"id/nonce-64-bytes-legal", false, false, idField("nonce", b64(64))},
 	{"id/nonce-missing", true, false, idField("nonce", "")},
 	{"id/nonce-number", true, false, idField("nonce", "1")},
 	{"id/key-broken-armor", true, false, idField("pub_keys", `["-----BEGIN PGP PUBLIC KEY BLOCK-----\n\nnot base64!!\n-----END PGP PUBLIC KEY BLOCK-----"]`)},
